@@ -8,14 +8,16 @@ def split(iterable, condition):
     else:
         pairs = map(lambda x, c: (x, bool(c)), iterable, condition)
     p1, p2 = tee(pairs)
-    return (x for x, c in p1 if c), (x for x, c in p2 if not c)
+    return _SplitSide(p1, True), _SplitSide(p2, False)   # __next__: `for x, c in pairs: if c is side: return x`,
+                                                         # then finished for good
 ```
 
 Every element travels together with its decision through **one** `tee`, so the two sides cannot get
 out of step, whatever the condition does.  The model is operational: the source iterator, the
 condition iterator (or the callable with its call log), the `map` object, the `tee` (a shared buffer
-and one cursor per branch) and the two generator expressions (each with its "finished" flag: a
-generator that has stopped stays stopped and no longer touches the `tee`) are explicit, and every
+and one cursor per branch) and the two result iterators (each with its "finished" flag: one
+that has stopped stays stopped and no longer touches the `tee`; since fix 2 of F40 they are small iterator
+objects, not generator expressions, so that an error of the condition does not finish them) are explicit, and every
 `next()` propagates down to the source exactly as in CPython: `map` pulls the element first, then the
 decision; when the condition iterable is exhausted the element just pulled is lost; `tee` pulls from
 `map` only when a branch is at the end of the shared buffer.  The truth value of a decision is taken
@@ -87,8 +89,7 @@ inductive Out (α : Type) where
   | outOfFuel
   deriving Repr, DecidableEq
 
-/-- `next()` on the result iterator of `side` (`(x for x, c in p if c)` for `true`, `… if not c` for
-`false`): take pairs from the tee until one carries this side's decision. -/
+/-- `next()` on the result iterator of `side` (`_SplitSide(p, side)`): take pairs from the tee until one carries this side's decision. -/
 def next (cfg : Cfg α σ) (side : Bool) : Nat → St α σ → Out α × St α σ
   | 0, s => (.outOfFuel, s)
   | fuel + 1, s =>
